@@ -103,18 +103,13 @@ impl Expression {
                     },
                     op,
                     Const(bitvec),
-                ) if (bitvec.is_zero() || bitvec.is_one())
-                    && matches!(op, IntEqual | IntNotEqual) =>
-                {
-                    // `0 == x - y` is equivalent to `x == y`
-                    let new_op = match (op, bitvec.is_zero()) {
-                        (IntEqual, true) | (IntNotEqual, false) => IntEqual,
-                        (IntEqual, false) | (IntNotEqual, true) => IntNotEqual,
-                        _ => unreachable!(),
-                    };
+                ) if bitvec.is_zero() && matches!(op, IntEqual | IntNotEqual) => {
+                    // `0 == x - y` is equivalent to `x == y` and `0 != x - y` is equivalent to `x != y`.
+                    // Note that no such equivalence holds for other constants:
+                    // `1 == x - y` is not the same as `x != y`.
                     *self = Expression::BinOp {
                         lhs: inner_lhs.clone(),
-                        op: new_op,
+                        op: *op,
                         rhs: inner_rhs.clone(),
                     }
                 }
